@@ -50,6 +50,11 @@ CHECKS = {
         technique='explicit-state BFS over all operation histories up to a depth bound on the real registries (57 operations on a 6-class lattice with multiple inheritance), states merged by a canonical (implementation, reference-model) abstraction, every transition compared with the reference model, merges validated differentially',
         text='Breadth-first search over every history of register-by-class / by-name / by-predicate, print and is_registered (all legal flag combinations) up to the depth bound; each transition restores a snapshot of the real registries, replays the history on the real package and compares the observed printer tag or boolean with an MRO-walk reference model. Canonical state hashing (tags renamed in order of appearance) makes depth 5-6 tractable, and every state reached by a second history has its complete outgoing observation vector recomputed and compared, so a wrong merge is reported rather than hidden. Dispatch after arbitrary interleavings is a statement about all histories, which four fixed test orders cannot settle.',
         note='trusted: the reference model in mc/checks/c15.py (about 50 lines); is_registered(check_deferred=False) is constrained only where the statement/pinned tests constrain it; bound: depth 5 (quick) / 6 (thorough) on one lattice'),
+    'C18': dict(
+        category='model_checking', design_ref='DESIGN.md 4/C18',
+        technique='explicit-state search of the default-configuration state space (32 states x 243 set_default_config operations, all transitions executed on the real module) with a complete observation vector per state (3 probes x 3^6 explicit/default combinations x every entry point) against a dictionary-merge reference model',
+        text='Every set_default_config operation is executed from every reachable default configuration and compared with a dict-update model (state, return value, get_default_config, no other key changed). In the states observed, every combination of explicit/defaulted settings is pushed through pformat, pprint (three end strings), cpprint with colour off, PrettyPrinter.pformat/pprint and pretty_repr; all must equal the reference text for the merged effective settings, and that text must be the same in every state and from a second history. No test calls set_default_config or PrettyPrinter at all.',
+        note='trusted: fully explicit pformat output as reference for its effective settings (cross-checked between states); quick observes the pristine state, the all-b state and a seed-rotated third of the 32 states, thorough all of them; a harness self-check fails the run if a setting is not observable through the probes'),
 }
 
 ALL = ['C%02d' % i for i in range(1, 21)]
